@@ -27,6 +27,7 @@ m = {"version": 1, "setup_cmd": "python3 /verif/rig/setup.py",
      "checks": checks,
      "not_applicable": [{"property_id": p["id"], "reason": NA.get(p["id"], "check under construction in this session (not yet claimed)")}
                         for p in props if p["id"] not in E],
-     "notes": "see DESIGN.md; known findings in known_findings.json"}
+     "notes": "see DESIGN.md (section 9 = build report); known findings in known_findings.json; growth_checks = specification coverage beyond the 20 listed properties (same engine and exit-code contract, pseudo ids Xnn, not part of checks[] because they have no entry in properties.jsonl)",
+     "growth_checks": json.load(open(os.path.join(V, "rig/manifest.d/growth.json")))}
 json.dump(m, open(os.path.join(V, "MANIFEST.json"), "w"), indent=1)
 print("claimed:", sorted(E), "hooks:", hooks)
